@@ -88,6 +88,15 @@ pub mod verif_api {
         crate::beatree::verif_async_read(file, cell, pages, schedule)
     }
 
+    /// Build a WAL blob with the real `WalBlobBuilder`. Per entry: the bucket and `None` for a clear
+    /// or `Some((page id, page diff bytes, changed nodes, elided children bytes))` for an update.
+    pub fn wal_blob(
+        sync_seqn: u32,
+        entries: &[(u64, Option<([u8; 32], [u8; 16], Vec<[u8; 32]>, [u8; 8])>)],
+    ) -> Vec<u8> {
+        crate::bitbox::verif_wal_blob(sync_seqn, entries)
+    }
+
     /// Segment size of the rollback logs opened on this thread from now on (`None`: the default).
     pub fn set_rollback_segment_size(size: Option<u64>) {
         crate::rollback::VERIF_SEGMENT_SIZE.with(|c| c.set(size));
